@@ -12,7 +12,7 @@ package redis
 //vf:job C10 quick VF_C10_BadLF shape=0..7
 //vf:job C10 quick VF_C10_BadLength kind=0..1
 //vf:job C10 quick VF_C10_NegLength kind=0..1
-//vf:job C10 quick VF_C10_BadTypeInArray
+//vf:job C10 quick VF_C10_BadTypeInArray ctx=0..10
 //vf:job C10 quick VF_C10_Truncated shape=0..9
 //vf:job C10 quick VF_C10_ParseArgs n=0..3
 //vf:assume C10 text lines (String/Error) do not contain LF; inline words contain no space, CR or LF and do not start with a RESP type byte
@@ -149,13 +149,10 @@ func VF_C10_RoundTrip() {
 	stream = append(stream, second...)
 	under := bytes.NewReader(stream)
 	d := NewDecoder(bufio.NewReader(under))
-	r1, err1 := d.decodeResp(0)
-	vfAssert(err1 == nil, "decode of an encoded value failed")
-	if err1 != nil {
-		return
-	}
+	// through the exported entry point of the replication parser: a decode
+	// error aborts there, which is reported as a violation
+	r1, off1 := MustDecodeOpt(d)
 	vfAssert(vfRespEqual(v, r1), "decoded value differs from the encoded one")
-	off1 := d.offset
 	vfAssert(off1 == int64(nl+len(enc)), "decoder position differs from the bytes consumed (first value)")
 	r2, off2 := MustDecodeOpt(d)
 	i2, ok := r2.(*Int)
@@ -220,16 +217,12 @@ func VF_C10_Retained() {
 	enc2, _ := EncodeToBytes(second)
 	rd := &vfChunkReader{chunks: [][]byte{enc, enc2[:9], enc2[9:]}}
 	d := NewDecoder(bufio.NewReaderSize(rd, 16))
-	r1, err1 := d.decodeResp(0)
-	vfAssert(err1 == nil, "decode failed")
-	if err1 != nil {
-		return
-	}
+	r1, _ := MustDecodeOpt(d)
 	vfAssert(vfRespEqual(v, r1), "decoded value differs right after decoding")
-	r2, err2 := d.decodeResp(0)
-	vfAssert(err2 == nil && vfRespEqual(second, r2), "second value differs")
+	r2, _ := MustDecodeOpt(d)
+	vfAssert(vfRespEqual(second, r2), "second value differs")
 	vfAssert(vfRespEqual(v, r1), "a decoded value changed when the stream was read further")
-	vfAssertTwin(err2 != nil, "twin")
+	vfAssertTwin(!vfRespEqual(second, r2), "twin")
 }
 
 var vfIntRanges = [][2]int64{{-1030, -1018}, {524280, 524295}, {-3, 3}}
@@ -251,14 +244,10 @@ func VF_C10_IntRoundTrip() {
 	enc, err := EncodeToBytes(&Int{n})
 	vfAssert(err == nil, "encode failed")
 	d := NewDecoder(bufio.NewReader(bytes.NewReader(enc)))
-	v, err := d.decodeResp(0)
-	vfAssert(err == nil, "decode failed")
-	if err != nil {
-		return
-	}
+	v, off := MustDecodeOpt(d)
 	iv, ok := v.(*Int)
 	vfAssert(ok && iv.Value == n, "integer does not round-trip")
-	vfAssert(d.offset == int64(len(enc)), "decoder position differs from the bytes consumed")
+	vfAssert(off == int64(len(enc)), "decoder position differs from the bytes consumed")
 	// the same integer as bulk length prefix semantics: itos must agree with FormatInt
 	vfAssertTwin(iv.Value != n, "twin")
 }
@@ -445,7 +434,25 @@ func VF_C10_NegLength() {
 }
 
 // an unknown type byte inside an array
+// vfBadTypeCtx: array encodings with one hole (marked by 0) at which an element starts — first,
+// middle and last positions, inside a nested array, and after a nested array (empty, nil,
+// non-empty, doubly nested) has been closed
+var vfBadTypeCtx = []string{
+	"*2\r\n:1\r\n\x00",
+	"*1\r\n\x00",
+	"*2\r\n\x00:1\r\n",
+	"*3\r\n$1\r\na\r\n\x00+b\r\n",
+	"*1\r\n*1\r\n\x00",
+	"*2\r\n*1\r\n:1\r\n\x00",
+	"*2\r\n*0\r\n\x00",
+	"*2\r\n*-1\r\n\x00",
+	"*2\r\n*1\r\n*0\r\n\x00",
+	"*2\r\n*2\r\n*0\r\n\x00:1\r\n:2\r\n",
+	"*3\r\n*0\r\n:1\r\n\x00",
+}
+
 func VF_C10_BadTypeInArray() {
+	ctx := vfBadTypeCtx[vfParam("ctx", 0)]
 	x := vfByte("x")
 	vfAssume(x != '+')
 	vfAssume(x != '-')
@@ -453,7 +460,14 @@ func VF_C10_BadTypeInArray() {
 	vfAssume(x != '$')
 	vfAssume(x != '*')
 	vfAssume(x != '\n')
-	s := append([]byte("*2\r\n:1\r\n"), x, 'a', '\r', '\n')
+	var s []byte
+	for i := 0; i < len(ctx); i++ {
+		if ctx[i] == 0 {
+			s = append(s, x, 'a', '\r', '\n')
+		} else {
+			s = append(s, ctx[i])
+		}
+	}
 	_, err := vfDecodeAll(s)
 	vfAssert(err != nil, "an unknown type byte inside an array decodes to a value")
 	vfAssertTwin(err == nil, "twin")
@@ -526,13 +540,13 @@ func VF_C10_IntText() {
 	}
 	enc := append(append([]byte(":"), text...), '\r', '\n')
 	want, werr := strconv.ParseInt(string(text), 10, 64)
-	d := NewDecoder(bufio.NewReader(bytes.NewReader(enc)))
-	v, err := d.decodeResp(0)
+	v, err := Decode(bufio.NewReader(bytes.NewReader(enc)))
 	vfAssert((err == nil) == (werr == nil), "an integer reply outside the 64-bit range (or not a number) must be an error, one inside must decode")
 	if err == nil && werr == nil {
 		iv, ok := v.(*Int)
 		vfAssert(ok && iv.Value == want, "integer reply decoded to another value")
-		vfAssert(d.offset == int64(len(enc)), "decoder position differs from the bytes consumed")
+		_, off := MustDecodeOpt(NewDecoder(bufio.NewReader(bytes.NewReader(enc))))
+		vfAssert(off == int64(len(enc)), "decoder position differs from the bytes consumed")
 	}
 	vfAssertTwin(len(enc) == 0, "twin")
 }
